@@ -29,8 +29,8 @@ Section Msg.
   Variable strat : strategy.
   Variable nconns : nat.
   Variable tgt : nat -> N.
-  Notation step := (step strat false nconns tgt).
-  Notation reachable := (reachable strat false nconns tgt).
+  Notation step := (step strat false false nconns tgt).
+  Notation reachable := (reachable strat false false nconns tgt).
 
   (** the ghost field [log] grows only by heads of the connection that is the best
       one in that very state: at subscribe (its current head) and when Run starts
